@@ -5,10 +5,13 @@
   `<:+:` (infix), `List.intercalate`, `take`/`drop`.
 
   PARTIAL: `less_than`/`greater_than` are proved on integer literals of at most 15 digits only
-  (IEEE-754 parsing/rounding is outside the model); `calc` (the `evalexpr` crate) is not
-  modelled; `uppercase`/`lowercase` are modelled on ASCII only.
+  (IEEE-754 parsing/rounding is outside the model).
+  `uppercase`/`lowercase` over all of Unicode: Props/C16Case.lean (`C16_case_…`);
+  `calc` against ordinary arithmetic in ℚ: Props/C16Calc.lean (`C16_calc_…`).
 -/
 import DuckModel.Sdk.Strings
+import DuckModel.Props.C16Case
+import DuckModel.Props.C16Calc
 import DuckModel.Lemmas.StringsLemmas
 import DuckModel.Lemmas.CharsLemmas
 
